@@ -152,6 +152,15 @@ def run_estimator_case(ctx, case, seed, observed, n_seq=1, seq_len=6):
         if "raised" in info:
             ctx.count("sequence_raised:" + info["raised"].split(":")[1].strip())
         _report(ctx, case, findings, dict(oracle="sequence", case=case.key, seed=seed, sseed=sseed, length=seq_len), observed)
+        # the same with a wrapped estimator the caller has trained already (prediction first, then incremental training)
+        findings, info = oracles.estimator_call_sequence(case, seed, random.Random(sseed * 13 + len(case.key)), length=seq_len, prefitted=True)
+        if str(info.get("raised", "")).startswith("Skip"):
+            ctx.count("prefitted_sequences_not_applicable")
+        else:
+            seq = info.get("seq", [])
+            ctx.case(("seq-prefitted", case.key, seed, tuple(seq)), True, sample=dict(kind="call-sequence, pre-trained wrapped estimator", case=case.key, seq=seq))
+            ctx.count("prefitted_sequences" + ("_raised" if "raised" in info else ""))
+            _report(ctx, case, findings, dict(oracle="sequence-prefitted", case=case.key, seed=seed, sseed=sseed, length=seq_len), observed)
     for j in range(n_seq + 1):
         # history, set_params(<param>=<other valid value>), refit: used object vs fresh clone with the same params
         import random
@@ -292,6 +301,8 @@ def replay(payload):
         findings, _ = oracles.estimator_refit_vs_fresh(SubsetCase(case), r["seed"])
     elif r["oracle"] == "sequence":
         findings, _ = oracles.estimator_call_sequence(case, r["seed"], random.Random(r["sseed"] * 7 + len(case.key)), length=r.get("length", 6))
+    elif r["oracle"] == "sequence-prefitted":
+        findings, _ = oracles.estimator_call_sequence(case, r["seed"], random.Random(r["sseed"] * 13 + len(case.key)), length=r.get("length", 6), prefitted=True)
     elif r["oracle"] == "setparams":
         findings, _ = oracles.estimator_setparams_refit(case, r["seed"], random.Random(r["sseed"] * 11 + len(case.key)))
     elif r["oracle"] == "stream-setparams":
